@@ -68,6 +68,7 @@ def domain(cfg):
 
 class C17(Base):
     ID = "C17"
+    EXPECTED_PROBES = ('c17_invalid_tuples', 'c17_excluded_point')
     BATCH = 16
     NBOX = {"quick": 6, "thorough": 12}
     RULE = ("enumeration of the box the property names: every class variant,"
